@@ -834,6 +834,27 @@ CONTEXTS = [
     ("non-generic-arg", "Main.id({E})", "call"),
     ("generic-arg-with-hint", "{{ let r: Bx<int> = Bx.of({E}); r.v }}", "call"),
     ("generic-arg/nested-generic", "Main.gid(Bx.of({E})).v", "call"),
+    # round 5 (coverage): expression forms of main_checker.rs the first family never reached
+    ("tuple-element", "{{ let t = ({E}, 1); 0 }}", "lit"),                        # check_tuple
+    ("unary-neg", "-({E})", "lit"),                                               # check_unary
+    ("unary-not", "if !(({E}) == 0) {{ 1 }} else {{ 2 }}", "call"),
+    ("binary-mul", "({E}) * 2", "lit"),                                           # arithmetic arm of check_binary
+    ("binary-compare-and", "if ({E}) < 1 && true {{ 1 }} else {{ 2 }}", "lit"),
+    ("concat-operand", "{{ let s = Str.fromInt({E}) :: \"a\"; 0 }}", "lit"),
+    ("else-if-branch", "if false {{ 0 }} else if true {{ {E} }} else {{ 1 }}", "lit"),  # check_if_else e2 = IfElse
+    ("else-if-let", "if false {{ 0 }} else {E}", "lit", ("iflet",)),             # guard in else-if position
+    ("expression-statement", "{{ {E}; 0 }}", "call"),                             # Statement::Expression
+    ("let-wildcard-initialiser", "{{ let _ = {E}; 0 }}", "lit"),
+    ("generic-arg/explicit-type-arguments", "Main.gid<int>({E})", "call"),
+    ("lambda-body/with-function-hint", "{{ let g: (int) -> int = (y) -> {E}; g(0) }}", "lit"),
+    ("lambda-body/annotated-then-called", "{{ let g = (y: int) -> {E}; g(0) }}", "call"),
+    ("generic-arg/if-else-chain/synthesised", "Main.gid(if false {{ 0 }} else if true {{ {E} }} else {{ 1 }})", "call"),
+    ("generic-arg/if-else-chain", "Main.gid(if false {{ 0 }} else if true {{ {E} }} else {{ 1 }})", "lit"),
+    ("generic-arg/block-without-final-expression", "{{ let u = Main.gid({{ let _ = {E}; }}); 0 }}", "call"),
+    ("generic-arg-with-hint/direct", "{{ let r: Bx<int> = Bx.of({E}); r.v }}", "lit"),
+    ("generic-arg/return-hint", "Main.id(Main.gid({E}))", "lit"),
+    ("generic-method-arg/lambda-rechecked-with-return-hint", "{{ let r: Bx<int> = Bx.of(0).map((y) -> {E}); r.v }}", "call"),
+    ("nested-generic-lambdas", "Bx.of(Bx.of(0)).map((b) -> b.map((y) -> {E})).get().get()", "lit"),
 ]
 
 CTX_PRELUDE = [
@@ -864,8 +885,11 @@ def render_ctx_case(case, only=None):
     lines += ["class Main {", "  function id(a: int): int = a", "  function <T> gid(v: T): T = v"]
     ty = ty_src(case["ty"])
     where = {}
-    for k, (name, tpl, variant) in enumerate(CONTEXTS):
+    for k, cdef in enumerate(CONTEXTS):
+        name, tpl, variant = cdef[:3]
         if only is not None and name != only:
+            continue
+        if len(cdef) > 3 and case["kind"] not in cdef[3]:
             continue
         lines.append(f"  function c{k}(x: {ty}): int = " + tpl.format(E=ctx_expr(case, variant)))
         where[len(lines)] = name
@@ -905,7 +929,7 @@ def run_context_cases(ctx, cases, stats):
         for name, ans in per.items():
             stats["contexts"][name] = stats["contexts"].get(name, 0) + 1
             n_ne = sum(1 for it in ans.split(" ")[1:] if ":NonExhaustiveMatch:" in it) if ans.startswith("E") else 0
-            r = classify(ctx, c, ans, ma, {}) if name in [n for n, _, _ in CONTEXTS] else ("diagnostic outside the generated functions: " + ans[:120], True, None)
+            r = classify(ctx, c, ans, ma, {}) if name in [cd[0] for cd in CONTEXTS] else ("diagnostic outside the generated functions: " + ans[:120], True, None)
             if r is None and n_ne > 1:
                 r = (f"{n_ne} NonExhaustiveMatch diagnostics for one match", True, None)
             if r is None:
@@ -921,8 +945,8 @@ def run_context_cases(ctx, cases, stats):
                 p2, st2 = split_by_line(i2[0], w2) if (i2 and (i2[0] == "ok" or i2[0].startswith("E"))) else ({name: i2[0] if i2 else "<missing>"}, [])
                 r2 = classify(ctx, cand, p2.get(name, "ok"), m2[0] if m2 else "<missing>", {})
                 return r2 is not None and r2[1] == no_input
-            small = shrink_case(c, fails) if name in [n for n, _, _ in CONTEXTS] else c
-            s2, w2 = render_ctx_case(small, only=name if name in [n for n, _, _ in CONTEXTS] else None)
+            small = shrink_case(c, fails) if name in [cd[0] for cd in CONTEXTS] else c
+            s2, w2 = render_ctx_case(small, only=name if name in [cd[0] for cd in CONTEXTS] else None)
             l2 = case_line(small, s2)
             i2, m2 = common.run_pair("C07", [l2])
             p2, _ = split_by_line(i2[0], w2) if (i2[0] == "ok" or i2[0].startswith("E")) else ({name: i2[0]}, [])
@@ -975,6 +999,88 @@ def run_cases(ctx, cases, label, stats):
             payload["broken"] = "correspondence `patcheck` (Model/Useful.lean vs crates/samlang-checker pattern_matching.rs / main_checker.rs): the theorems of Props/C07.lean no longer speak about this code"
         ctx.violation(r2[0], payload, no_input=r2[1])
     return bad
+
+
+def deterministic_family():
+    """Seed-independent family: every branch of check_matching_pattern (main_checker.rs:1100-1520) on both
+    sides - object patterns in every field order with the refutable sub-pattern at every position
+    (column = declaration index of the field), tuple / variant arity (under, exact, over), unknown tag /
+    field, duplicate / omitted / private field (inside and outside the class), non-struct and non-enum
+    matched types, generic payloads at two instantiations, or-patterns (nested, inside invalid patterns,
+    consistent and inconsistent bindings) - as match, let and if-let."""
+    W = ("W",)
+    C0, INT = ("cls", "C0", None), ("int",)
+    G1C0, G1I = ("cls", "G1", (C0,)), ("cls", "G1", (INT,))
+    classes = [
+        {"name": "C0", "generic": 0, "kind": "enum", "variants": [(0, []), (1, [INT]), (2, [C0, INT])]},
+        {"name": "G1", "generic": 1, "kind": "enum", "variants": [(3, []), (4, [("tp", 0)])]},
+        {"name": "C2", "generic": 0, "kind": "struct", "fields": [(0, C0), (1, G1C0), (2, C0)]},
+        {"name": "C3", "generic": 0, "kind": "struct", "fields": [(3, C0), (4, INT)], "private": [4]},
+        {"name": "C4", "generic": 0, "kind": "struct", "fields": [(5, G1I), (3, G1C0)]},
+    ]
+    C2, C3, C4 = ("cls", "C2", None), ("cls", "C3", None), ("cls", "C4", None)
+    pA, pB, pC = ("V", 0, [], False), ("V", 1, [W], True), ("V", 2, [W, W], True)
+    pD = ("V", 3, [], False)
+    pE = lambda x: ("V", 4, [x], True)
+    out = []
+
+    def add(ty, pats, kinds=("match",), home=None, malformed=False):
+        for k in kinds:
+            out.append({"classes": classes, "ty": ty, "kind": k, "pats": pats if k == "match" else pats[:1],
+                        "home": home, "malformed": malformed})
+    # 1. object patterns: every order x refutable sub-pattern at every field
+    first = {0: pA, 1: pD, 2: pA}
+    rest = {0: ("R", [pB, pC]), 1: pE(W), 2: ("R", [pB, pC])}
+    part = {0: pB, 1: pE(pA), 2: pC}
+    for perm in itertools.permutations([0, 1, 2]):
+        rev = tuple(reversed(perm))
+        for f in (0, 1, 2):
+            obj = lambda order, sub: ("O", [(g, sub if g == f else W) for g in order])
+            add(C2, [obj(perm, first[f]), obj(rev, rest[f])], ("match", "let", "iflet"))       # exhaustive
+            add(C2, [obj(perm, first[f]), obj(rev, part[f])])                                  # not exhaustive
+        add(C2, [("O", [(g, ("I", 10 + g)) for g in perm])], ("let", "iflet"))                # irrefutable
+        add(C2, [("O", [(g, first[g]) for g in perm]), ("O", [(g, W) for g in rev])])
+    # 2. tuple patterns: arity under / exact / over, refutable in the middle
+    for t in ([pA, pD, pB], [W, pE(pA), W], [pA, pD], [pA], [pA, pD, pB, W], [W, W, W, pA]):
+        add(C2, [("T", t)], ("match", "let", "iflet"), malformed=len(t) != 3)
+        add(C2, [("T", t), W], malformed=len(t) != 3)
+    add(C2, [("T", [pA, W, W]), ("T", [W, pD, W]), ("T", [("R", [pB, pC]), pE(W), W])])
+    # 3. variant patterns: unknown tag, arity, missing parentheses, nested / generic payloads
+    for v in (pA, pB, pC, ("V", 7, [], False), ("V", 7, [W], True), ("V", 2, [W], True), ("V", 1, [W, W], True),
+              ("V", 1, [], False), ("V", 2, [pC, W], True), ("V", 2, [("V", 2, [pA, W], True), ("I", 1)], True)):
+        bad = v[1] == 7 or (v[1] == 1 and len(v[2]) != 1) or (v[1] == 2 and len(v[2]) != 2)
+        add(C0, [v], ("match", "let", "iflet"), malformed=bad)
+        add(C0, [v, W], malformed=bad)
+    add(C0, [pA, pB, pC]); add(C0, [pA, pC]); add(C0, [pA, pB, ("V", 2, [pA, W], True)])
+    add(G1C0, [pD, pE(pA), pE(pB), pE(pC)]); add(G1C0, [pD, pE(pA)]); add(G1C0, [pE(W)], ("match", "let", "iflet"))
+    add(G1I, [pD, pE(("I", 1))]); add(G1I, [pE(pA)], malformed=True)
+    add(C4, [("T", [pE(W), pE(pA)]), ("T", [pD, W]), ("T", [W, pD]), ("T", [W, pE(("R", [pB, pC]))])])
+    add(C4, [("T", [pE(W), pE(pA)]), ("T", [pD, W])])
+    # 4. matched type is not a struct / not an enum
+    for ty in (INT, C0, C2):
+        for q in (pA, ("T", [W, W]), ("O", [(0, W)]), ("T", [("R", [pA, pB]), W]), ("V", 7, [("R", [pA, pB])], True),
+                  ("O", [(0, ("R", [pA, ("I", 2)]))])):
+            add(ty, [q], ("match", "let", "iflet"), malformed=True)
+            add(ty, [q, W], malformed=True)
+    # 5. object pattern errors: unknown / duplicate / omitted / private field
+    add(C2, [("O", [(0, pA), (1, W), (2, W), (5, W)])], ("match", "let", "iflet"), malformed=True)
+    add(C2, [("O", [(5, pA), (0, W), (1, W), (2, W)]), W], malformed=True)
+    add(C2, [("O", [(0, pA), (0, pB), (1, W), (2, W)]), ("O", [(0, pA), (1, W), (2, W)])], malformed=True)
+    add(C2, [("O", [(1, pD), (2, W)]), ("O", [(2, W), (1, pE(W))])], ("match", "let", "iflet"), malformed=True)
+    for home in (None, "C3"):
+        add(C3, [("O", [(4, W), (3, pA)]), ("O", [(3, ("R", [pB, pC])), (4, ("I", 1))])], ("match", "let", "iflet"), home=home)
+        add(C3, [("T", [pA, W])], ("match", "let", "iflet"), home=home)
+        add(C3, [("T", [pA])], home=home, malformed=True)
+    # 6. or-patterns: nested, bindings consistent / inconsistent (names, types)
+    add(C0, [("R", [pA, ("R", [pB, pC])])], ("match", "let", "iflet"))
+    add(C0, [("R", [("V", 1, [("I", 1)], True), ("V", 2, [W, ("I", 1)], True)]), pA])
+    add(C0, [("R", [("V", 1, [("I", 1)], True), ("V", 2, [("I", 1), W], True)]), pA], malformed=True)
+    add(C0, [("R", [("V", 1, [("I", 1)], True), pA]), pC], malformed=True)
+    add(C0, [("R", [("V", 1, [("I", 1)], True), ("V", 2, [W, ("I", 2)], True)])], ("match", "let", "iflet"), malformed=True)
+    add(C2, [("O", [(2, W), (1, ("R", [pD, pE(pA)])), (0, W)]), ("T", [W, pE(("R", [pB, pC])), W])])
+    add(C2, [("T", [("I", 1), W, ("I", 1)])], ("match", "let", "iflet"), malformed=True)      # same name twice
+    add(C2, [("T", [("I", 0), W, W])], ("match", "let", "iflet"), malformed=True)             # shadows the parameter
+    return out
 
 
 def gen_object_case(rng):
@@ -1059,6 +1165,9 @@ def run(ctx):
     for f in sorted(os.listdir(cdir)) if os.path.isdir(cdir) else []:
         if f.endswith(".json"):
             corpus.append(load_case(json.load(open(os.path.join(cdir, f)))))
+    fam = deterministic_family()
+    run_cases(ctx, fam, "deterministic family (pattern conversion branches)", stats); total += len(fam)
+    stats["deterministic_family"] = len(fam)
     corpus.append(F1_CASE)   # regression input of the fixed finding C07-F1 (must not panic any more)
     run_cases(ctx, corpus, "corpus", stats); total += len(corpus)
     n_valid = ctx.scale(1400, 40000)
@@ -1105,7 +1214,7 @@ def run(ctx):
         "rule": "one evaluation = one generated module (1-4 enum/struct/generic classes, recursive and nested) with one match (1-6 arms) / destructuring let / if-let over variant, tuple, object, wildcard, id, or-patterns of depth <= 4, type-checked by the real checker and by the model; non-trivial = distinct implementation answer carrying a NonExhaustiveMatch counterexample or an irrefutable-if-let diagnostic",
         "samples": samples, "traces_validated_against_impl": total,
         "case_kinds": stats["kinds"], "expression_contexts": stats["contexts"], "impl_outcomes": stats["outcomes"],
-        "oracle": {k: v for k, v in stats.items() if k in ("checked", "skipped-size", "skipped-malformed", "skipped-uninhabited", "illtyped", "uninhabited", "certified")},
+        "oracle": {k: v for k, v in stats.items() if k in ("checked", "skipped-size", "skipped-malformed", "skipped-uninhabited", "illtyped", "uninhabited", "certified", "deterministic_family")},
         "pending": PENDING})
     ctx.assumptions += [
         "every type reachable from the scrutinee type has a value (Inhabited'); for uninhabited recursive enums the algorithm still asks for all variants (stated in DESIGN section 8 C07)",
@@ -1117,7 +1226,7 @@ def run(ctx):
 
 
 PENDING = [
-    "the glue around the analysis (which expression contexts reach check_match / check_declaration_statement / check_if_else in which inference mode) is covered by the deterministic family of 19 expression contexts, not by a Lean model of the bidirectional checker",
+    "the glue around the analysis (which expression contexts reach check_match / check_declaration_statement / check_if_else in which inference mode) is covered by the deterministic family of 40 expression contexts, not by a Lean model of the bidirectional checker",
     "the run-time meaning of `smatch` (that the lowered match really tests what the source-level semantics says) belongs to C01/C03 (`lowerMatch_correct`); the C07 check itself does not execute programs",
     "the diagnostics other than NonExhaustiveMatch / UselessPattern are compared as one flag (`err`: some other diagnostic was reported), not kind by kind",
 ]
